@@ -16,7 +16,7 @@ import (
 //   - ~R and ~:R for the numbers that print each entry of the word tables: 0..19, the tens, tens + units,
 //     hundreds, 10^3k and its neighbours for every scale word, negative numbers.
 // What is compared is what is proved in Coq of the unchanged code: the English text for every integer, an error from
-// 10^66 on (C15_english_loop, since repo_fixes/C15-1..4), the Roman text everywhere but at 0 (C15_dirR_roman_exact).
+// 10^66 on (C15_english_loop, since repo_fixes/C15-1..4), the Roman text everywhere, an error outside 1..3999 (C15_dirR_roman_all_integers, since repo_fixes/C15-5).
 // Every difference is reported with its input.
 
 func specRoman(old bool, n int) string {
@@ -145,12 +145,12 @@ func specSweep(ctx *common.Ctx) {
 			violate("specification sweep (the model could not be instantiated): ~R does not write the text of the directive definition", src, show(o), want)
 		}
 	}
-	// Roman numerals, both styles, the whole domain and its borders (0 is the known finding C15-roman-zero)
+	// Roman numerals, both styles, the whole domain and its borders
 	for n := 1; n <= 3999; n++ {
 		report(fmt.Sprintf(`(format nil "~@R" %d)`, n), specRoman(false, n), false)
 		report(fmt.Sprintf(`(format nil "~:@R" %d)`, n), specRoman(true, n), false)
 	}
-	for _, n := range []int{-1, -3999, 4000, 4001, 9999, 10000, 39990} {
+	for _, n := range []int{0, -1, -3999, 4000, 4001, 9999, 10000, 39990} {
 		report(fmt.Sprintf(`(format nil "~@R" %d)`, n), "", true)
 		report(fmt.Sprintf(`(format nil "~:@R" %d)`, n), "", true)
 	}
